@@ -416,6 +416,11 @@ class World:
                 kwargs = {'setup_logging': False}
                 if start[0] == 'fresh':
                     out['results'] = tenpy.run_simulation(simulation_class_kwargs=kwargs, **_deepcopy(start[1]))
+                elif len(start) > 2 and start[2] == 'checkpoint_results':
+                    # the user loads the file himself and hands over the dictionary
+                    data = h5mod.load(start[1])
+                    out['results'] = tenpy.resume_from_checkpoint(checkpoint_results=data,
+                                                                  simulation_class_kwargs=kwargs)
                 else:
                     out['results'] = tenpy.resume_from_checkpoint(filename=start[1], simulation_class_kwargs=kwargs)
                 out['outcome'] = 'finished'
